@@ -9,7 +9,7 @@ From LP Require Export Splits.
 From LP Require Import Migrate.
 Local Open Scope N_scope.
 
-Definition no_slots : slots := mkSlots None None None None None None None.
+Definition no_slots : slots := mkSlots None None None None None None None None.
 
 Definition splits_migrate (wasm_admin who : addr) (name ver : String.string) (w : world) : result world :=
   if negb (who =? wasm_admin) then Err
